@@ -45,7 +45,13 @@ type LifeObs struct {
 }
 
 func NewSDriverDcp(cfg SCfg, initial map[uint16]SDoc, auto, health bool, numVb int) *SDriver {
-	d := &SDriver{Cfg: cfg, Store: fakes.NewStore(), sent: map[uint64]interface{}{}, MaxVb: 15, IsDcp: true, Auto: auto, Health: health}
+	return newSDriverDcp(cfg, initial, auto, health, numVb, false)
+}
+
+// newSDriverDcp: serial = the server is older than 5.5.0 (streams are closed one by one, each close paced by the end
+// notification of the previous one, which the fake client then sends like a server)
+func newSDriverDcp(cfg SCfg, initial map[uint16]SDoc, auto, health bool, numVb int, serial bool) *SDriver {
+	d := &SDriver{Cfg: cfg, Store: fakes.NewStore(), sent: map[uint64]interface{}{}, MaxVb: 15, IsDcp: true, Auto: auto, Health: health, SerialVersion: serial}
 	for vb, doc := range initial {
 		d.Store.Docs[vb] = models.CheckpointDocument{
 			Checkpoint: &models.CheckpointDocumentCheckpoint{
@@ -73,6 +79,7 @@ func NewSDriverDcp(cfg SCfg, initial map[uint16]SDoc, auto, health bool, numVb i
 	d.Client.NumVb = numVb
 	d.Client.Trace = d.Trace
 	d.Client.Colls = d.collections()
+	d.Client.EndOnClose = serial
 	d.Store.Trace = d.Trace
 	d.Cons = &fakes.Consumer{Trace: d.Trace}
 	d.Disc = &fakes.Discovery{}
